@@ -6,7 +6,8 @@
   fix    -> parity_chsize extends p0 to 1024 (zeros), the block compares equal, nothing is written, valid_size stays 500 and
             parity_truncate cuts p0 back to 500: exit 0 "Everything OK", p0 has 500 bytes
   check  -> "Unexpected end of file", 1 error;  fix / check can be repeated with the same result
-  sync   -> regrows p0 to 1024; check passes
+  sync   -> since /repo 03a455c refused ("parity files are smaller than expected"); before, it silently regrew p0
+  sync -F -> regrows p0 to 1024 and recomputes; check passes
 Run: python3 harness/py/c17_repro_fix_short.py
 """
 import os, sys, json
@@ -32,8 +33,13 @@ def reproduce(tool, D):
     rc, out = sr(['check']); res['check_rc'] = rc; res['check_tail'] = ' '.join(out.split()[-9:])
     rc, out = sr(['fix']); res['fix2_rc'] = rc; res['p0_after_fix2'] = os.path.getsize(p0)
     res['check2_rc'] = sr(['check'])[0]
-    res['sync2_rc'] = sr(['sync'])[0]; res['p0_after_sync2'] = os.path.getsize(p0)
+    rc, out = sr(['sync']); res['sync2_rc'] = rc; res['sync2_refused_by_interlock'] = rc != 0 and 'smaller than expected' in out
+    if rc != 0:
+        res['sync2_forced_rc'] = sr(['-F', 'sync'])[0]
+    res['p0_after_sync2'] = os.path.getsize(p0)
     res['check3_rc'] = sr(['check'])[0]
+    res['healed'] = ((rc == 0 or (res['sync2_refused_by_interlock'] and res['sync2_forced_rc'] == 0)) and
+                     res['p0_after_sync2'] == 1024 and res['check3_rc'] == 0)
     res['observed'] = res['fix_rc'] == 0 and res['check_rc'] != 0
     return res
 
